@@ -189,6 +189,28 @@ def install(cfg):
         raise Unsupported("struct.unpack(%r)" % (fmt,))
 
     # ---- json ------------------------------------------------------------------------------
+    def _all_text_ascii(interp, o):
+        """structural: every key and string leaf of a concretely-shaped value is ASCII (entailed for symbolic text)"""
+        if isinstance(o, HDict):
+            if o.mode != "c":
+                return False
+            return all(isinstance(k, str) and k.isascii() and _all_text_ascii(interp, x) for k, x in o.py.items())
+        if isinstance(o, HList):
+            if getattr(o, "items", None) is None:
+                return False
+            return all(_all_text_ascii(interp, x) for x in o.items)
+        if o is None or isinstance(o, (bool, int, float)):
+            return True
+        if isinstance(o, str):
+            return o.isascii()
+        if isinstance(o, SVal):
+            tg = interp.tag(o)
+            if tg in ("vint", "vbool", "vnone", "vfloat"):
+                return True
+            if tg == "vstr":
+                return interp.ctx.entails(S.is_ascii(interp.ctx, interp.str_term(o)))
+        return False
+
     @cfg.stub(json.dumps)
     def json_dumps(interp, obj, ensure_ascii=True, separators=None, cls=None, **kw):
         ctx = interp.ctx
@@ -223,6 +245,8 @@ def install(cfg):
                 ctx.axiom(z3.And(S.JSONOk(t), S.JSONParse(t) == v), "json.loads(json.dumps(v)) = v on the JSON data model")
             else:
                 u = S.utf8_encode(ctx, t)
+                if _all_text_ascii(interp, obj):
+                    ctx.axiom(z3.Not(S.HasSurrogate(t)), "json.dumps(ensure_ascii=False) of a value whose every string is ASCII has no lone surrogate")
                 ctx.axiom(z3.And(S.JSONOk(t), S.JSONParse(t) == v, z3.Implies(z3.Not(S.HasSurrogate(t)), z3.And(S.JSONOk(u), S.JSONParse(u) == v))),
                           "json.loads(json.dumps(v, ensure_ascii=False)[.encode()]) = v on the JSON data model")
             ctx.axiom(z3.Length(t) > 0, "json.dumps output is non-empty")
